@@ -8,7 +8,7 @@ import ZvbiModel.Generated.NetFlags
 Follows, statement by statement,
 * `src/packet.c`  `station_lookup`, `vbi_decode_vps`, `parse_bsd`, `parse_8_30` and the part of
   `vbi_decode_teletext` that leads to them (packets 30/31 only),
-* `src/wss.c`     `vbi_decode_wss_625`,
+* `src/wss.c`     `vbi_decode_wss_625`, `vbi_decode_wss_cpr1204`,
 * `src/vbi.c`     `vbi_event_enable`, `vbi_decode` (time check, `chswcd` countdown),
   `vbi_chsw_reset`, `vbi_channel_switched`, `vbi_send_event` (one handler: delivery = mask test),
 * `src/caption.c` `xds_decoder` class 2 (channel) types 1 (network name) and 2 (call letters),
@@ -358,6 +358,20 @@ def rxWss (s : State) (b0 b1 : Nat) (t : Nat) : State × List Ev :=
   if r ≠ s.aspect then ({ s with aspect := r, aspectSource := 1 }, [Ev.aspect r, Ev.progInfo r])
   else (s, [])
 
+/-! ## vbi_decode_wss_cpr1204 (wss.c:160) -/
+
+/-- the aspect a CPR-1204 (525-line WSS) word encodes: `buf[0]` bit 7 = anamorphic 16:9, bit 6 = letterbox;
+    nothing else of the three bytes is read -/
+def cprAspect (b0 : Nat) : Aspect :=
+  { first := if b0 &&& 0x40 != 0 then 72 else 22, last := if b0 &&& 0x40 != 0 then 212 else 262,
+    ratio := if b0 &&& 0x80 != 0 then 2 else 1, film := 0, subt := VBI_SUBT_UNKNOWN }
+
+/-- `vbi_decode_wss_cpr1204`: no repeat counter, no parity; announced whenever the record differs from the stored one -/
+def rxCpr (s : State) (b0 : Nat) : State × List Ev :=
+  let r := cprAspect b0
+  if r ≠ s.aspect then ({ s with aspect := r, aspectSource := 2 }, [Ev.aspect r, Ev.progInfo r])
+  else (s, [])
+
 /-! ## xds_decoder, class XDS_CHANNEL (caption.c:488) -/
 
 /-- `hcrc[i]` of `init_hcrc` -/
@@ -403,6 +417,7 @@ inductive Line
   | wss (b0 b1 : Nat)
   | xds (ty : Nat) (bytes : List Nat)
   | page (pgno : Nat)
+  | cpr (b0 : Nat)            -- VBI_SLICED_WSS_CPR1204, first of its three bytes
 deriving DecidableEq, Repr
 
 /-- time check and `chswcd` countdown at the head of `vbi_decode` -/
@@ -428,6 +443,7 @@ def rxLine (cfg : Cfg) (t : Nat) (s : State) (l : Line) : State × List Ev :=
     if hasBit s.mask VBI_EVENT_TTX_PAGE && !(pgno ≤ 0x199 && s.chswcd > 0) then
       ({ s with cached := if s.cached.contains pgno then s.cached else pgno :: s.cached }, [])
     else (s, [])
+  | .cpr b0 => rxCpr s b0
 
 def rxLines (cfg : Cfg) (t : Nat) (s : State) : List Line → State × List Ev
   | [] => (s, [])
@@ -499,6 +515,7 @@ def lineOk : Line → Bool
   | .wss _ _ => true
   | .xds ty bytes => (ty = 1 || ty = 2) && 1 ≤ bytes.length && bytes.length ≤ 32 && xdsBytesOk bytes
   | .page pgno => 0x100 ≤ pgno && pgno ≤ 0x8FF && pgno % 16 ≤ 9 && (pgno / 16) % 16 ≤ 9
+  | .cpr _ => true
 
 def stepWith (cfg : Cfg) (s : State) (op : Op) : State × Out :=
   match op with
